@@ -304,3 +304,24 @@ def g_kexpect(rng, level=0, n_random=200):
         L = int(rng.integers(1, 5))
         gs, ps = rand_tableau(rng, N)
         yield {'gs_stb': gs, 'ps_stb': ps, 'gs_obs': bits(rng, L, 2 * N), 'ps_obs': 2 * bits(rng, L), 'r': int(rng.integers(0, N + 1))}
+
+
+def rand_obs(rng, N, L):
+    return bits(rng, L, 2 * N), 2 * bits(rng, L)
+
+
+@gen(U + 'stabilizer_measure')
+def g_measure(rng, level=0, n_random=300):
+    for _ in range(n_random):
+        N = int(rng.integers(1, 4))
+        gs, ps = rand_tableau(rng, N)
+        og, op = rand_obs(rng, N, int(rng.integers(1, 4)))
+        if rng.integers(0, 3) == 0:       # an observable that is already +- a stabilizer / a tableau row
+            og[0] = gs[int(rng.integers(0, 2 * N))]
+        yield {'gs_stb': gs, 'ps_stb': ps, 'gs_obs': og, 'ps_obs': op, 'r': int(rng.integers(0, N + 1))}
+
+
+@gen(U + 'stabilizer_project')
+def g_project(rng, level=0, n_random=300):
+    for a in g_measure(rng, level, n_random):
+        yield {'gs_stb': a['gs_stb'], 'gs_obs': a['gs_obs'], 'r': a['r']}
